@@ -1,31 +1,34 @@
 /* units/C07/lemma.h -- the exactly-once lemma, proved from the CONTRACTS of the table operations alone
  * (every callee below is replaced by its contract; each contract is enforced against the real body in its own proof).
  *
- *   Inv  :=  0 <= completions <= 1  /\  (id in table  <=>  started /\ completions = 0)  /\  (not started => completions = 0)
- *            /\  (id in table => id != "" /\ addressee != "")
+ *   Inv  :=  0 <= completions <= 1  /\  (request in table  <=>  started /\ completions = 0)  /\  (not started => completions = 0)
+ *            /\  (an entry under the id => id != "" /\ addressee != "" /\ 1 <= its generation <= number registered so far)
  *
- * for the arbitrary witness id (hence for every id).  `started` / `completions` speak about the request most recently
- * registered under that id (an id may be reused once its request has completed).
+ * for the arbitrary witness REQUEST = the g_wgen-th request registered under the arbitrary id g_wid (hence for every request
+ * of every id; an id may be reused once its request has left the table, the new request is the next generation).
+ * cancelAll / onSession* are used through contracts that allow continuations to start new requests while they run.
  * Base case: the empty table.  Step: one arbitrary operation with arbitrary arguments from an arbitrary Inv-state. */
 void h_lemma(void)
 {
   OutgoingIqManager mgr;
   OutgoingIqManager *self = &mgr;
   /* ---- base case: a freshly constructed manager has an empty table, nothing was started */
-  g_wid = nondet_qstr();
-  mgr.m_requests.w_present = false; gh_started = false; gh_completions = 0;
+  g_wid = nondet_qstr(); g_wgen = nondet_int(); gh_reentrant = nondet_bool(); gh_iqm_reenter = self;
+  __CPROVER_assume(g_wgen >= 1);
+  mgr.m_requests.w_present = false; gh_gen_ctr = 0; gh_completions = 0;
   __CPROVER_assert(INV(self), "[lemma.base_empty_table_satisfies_invariant] Inv holds for the empty table");
 
   /* ---- step: arbitrary state satisfying Inv and the view's representation invariant */
   mgr.m_requests.w_present = nondet_bool(); mgr.m_requests.w.first = g_wid; mgr.m_requests.w.second.jid = nondet_qstr();
-  mgr.m_requests.w.second.interface.gh_is_w = true; mgr.m_requests.w.second.interface.finished = false;
-  gh_other.first = nondet_qstr(); gh_other.second.jid = nondet_qstr(); gh_other.second.interface.gh_is_w = false; gh_other.second.interface.finished = nondet_bool();
-  gh_started = nondet_bool(); gh_completions = nondet_int(); gh_others_completed = nondet_int();
+  mgr.m_requests.w.second.interface.gh_is_w = true; mgr.m_requests.w.second.interface.gh_gen = nondet_int(); mgr.m_requests.w.second.interface.finished = false;
+  gh_other.first = nondet_qstr(); gh_other.second.jid = nondet_qstr(); gh_other.second.interface.gh_is_w = false; gh_other.second.interface.gh_gen = 0; gh_other.second.interface.finished = nondet_bool();
+  gh_gen_ctr = nondet_int(); gh_completions = nondet_int(); gh_others_completed = nondet_int();
   gh_value.kind = nondet_int(); gh_value.el = nondet_int(); gh_value.err.description = nondet_qstr(); gh_value.err.error.kind = nondet_int(); gh_value.err.error.val = nondet_int();
-  __CPROVER_assume(0 <= gh_others_completed && gh_others_completed <= 1000);
+  __CPROVER_assume(0 <= gh_others_completed && gh_others_completed <= 1000 && gh_gen_ctr < 998);
   __CPROVER_assume(INV(self));
 
-  bool present0 = mgr.m_requests.w_present; qstr jid0 = mgr.m_requests.w.second.jid; int c0 = gh_completions; bool started0 = gh_started;
+  bool present0 = mgr.m_requests.w_present; qstr jid0 = mgr.m_requests.w.second.jid; int c0 = gh_completions; bool started0 = STARTED;
+  bool in0 = M_IN(mgr.m_requests); int gen0 = mgr.m_requests.w.second.interface.gh_gen; int ctr0 = gh_gen_ctr;
   int op = nondet_int();
   qstr id = nondet_qstr(), to = nondet_qstr();
   qdom stanza = nondet_int();
@@ -52,21 +55,23 @@ void h_lemma(void)
   case 10: OutgoingIqManager_sendIq_iq(self, &task, &iq, to); break;
   default: break;
   }
-  bool present1 = mgr.m_requests.w_present; int c1 = gh_completions;
+  bool present1 = mgr.m_requests.w_present; int c1 = gh_completions; bool in1 = M_IN(mgr.m_requests);
   __CPROVER_assert(INV(self), "[lemma.invariant_preserved_by_every_operation] exactly-once invariant holds again after any operation");
   __CPROVER_assert(UMAP_REP(mgr.m_requests), "[lemma.view_invariant_preserved] representation invariant of the witness view holds again");
   /* a pending request is completed only by: a qualifying reply, an explicit finish (send error), or the end of a session that cannot continue */
-  __CPROVER_assert(!(present0 && c1 != c0) || (op == 1 && id == g_wid) || (op == 8 && id == g_wid && sres.kind == 1) || (op == 2 && handled && ID_IS_W && IS_IQ && IS_RESPONSE && (FROM == 0 || FROM == jid0))
+  __CPROVER_assert(!(in0 && c1 != c0) || (op == 1 && id == g_wid) || (op == 8 && id == g_wid && sres.kind == 1) || (op == 2 && handled && ID_IS_W && IS_IQ && IS_RESPONSE && (FROM == 0 || FROM == jid0))
                    || op == 3 || (op == 4 && !sb.smResumed) || (op == 5 && !se.smCanResume),
                    "[lemma.completed_only_by_reply_from_addressee_or_server_send_error_or_session_end] nothing else completes a pending request");
-  __CPROVER_assert(!(op == 2 && present0 && ID_IS_W && FROM != 0 && FROM != jid0) || (present1 && c1 == c0 && mgr.m_requests.w.second.jid == jid0 && !handled),
+  __CPROVER_assert(!(op == 2 && present0 && ID_IS_W && FROM != 0 && FROM != jid0) || (present1 && in1 == in0 && c1 == c0 && mgr.m_requests.w.second.jid == jid0 && !handled),
                    "[lemma.right_id_from_another_sender_neither_completes_nor_cancels] a stanza with the right id from any other sender changes nothing");
-  __CPROVER_assert(!(op == 2 && present0 && ID_IS_W && IS_IQ && IS_RESPONSE && (FROM == 0 || FROM == jid0)) || (!present1 && c1 == 1 && handled),
+  __CPROVER_assert(!(op == 2 && in0 && ID_IS_W && IS_IQ && IS_RESPONSE && (FROM == 0 || FROM == jid0)) || (!present1 && c1 == 1 && handled),
                    "[lemma.qualifying_reply_completes_the_request] a result/error with the request's id from the addressee (or without from) completes it");
-  __CPROVER_assert(!(present0 && (op == 3 || (op == 4 && !sb.smResumed) || (op == 5 && !se.smCanResume))) || (!present1 && c1 == 1 && DISCONNECTED_ERROR(gh_value)),
+  __CPROVER_assert(!(in0 && (op == 3 || (op == 4 && !sb.smResumed) || (op == 5 && !se.smCanResume))) || (!in1 && c1 == 1 && DISCONNECTED_ERROR(gh_value)),
                    "[lemma.session_end_without_resumption_completes_with_disconnected_error] no request stays pending across a session that cannot continue");
-  __CPROVER_assert(!(present0 && ((op == 4 && sb.smResumed) || (op == 5 && se.smCanResume))) || (present1 && c1 == 0),
+  __CPROVER_assert(!(in0 && ((op == 4 && sb.smResumed) || (op == 5 && se.smCanResume))) || (in1 && c1 == 0),
                    "[lemma.resumable_session_keeps_request_pending] a resumed / resumable session does not cancel");
-  __CPROVER_assert(!(!present0 && started0) || c1 == 1 || ((op == 0 || op == 9) && id == g_wid) || op == 10,
-                   "[lemma.completed_request_is_never_completed_again] once completed, the count stays 1 until the id is reused by a new request");
+  __CPROVER_assert(!(started0 && !in0) || (c1 == 1 && !in1),
+                   "[lemma.completed_request_is_never_completed_again_nor_re_entered] once completed, a request stays completed exactly once (a reused id is a new request)");
+  __CPROVER_assert(!(present1 && gh_gen_ctr > ctr0) || ((!present0 || op == 3 || op == 4 || op == 5) && mgr.m_requests.w.second.interface.gh_gen == gh_gen_ctr && gh_gen_ctr == ctr0 + 1),
+                   "[lemma.new_request_under_an_id_only_when_the_id_is_free] a request is registered under an id only while no request with that id is in the table, or after those were cancelled");
 }
